@@ -80,6 +80,7 @@ def check(run):
     # the HTTP level, with and without -one-shell: half-attached shells which end (a disconnected event with no connected one before it) must leave the
     # listener as freshly started - still open, the next shell accepted and announced ready
     import c12
+    c12.watcher_obligation(run)       # what the program does with connected / disconnected events, read off the source
     okh, hbin, hlog = vlib.build_overlay_test(run.rundir, "internal/hsrv", go="go")
     if not okh:
         run.oblige("hsrv harness builds against /repo", False, hlog)
